@@ -494,6 +494,75 @@ def _ordinal(f, n):
     return rets.index((n.get('l', 0), n['i']))
 
 
+def r13_5(ctx):
+    """a wrapper entry point reports success only after its delegate ran: every return that
+    is not a failure (a non-zero constant, or a result variable found non-zero on the path)
+    is reached through the call that does the actual scan / mapping.  An early `return
+    ERROR_SUCCESS` for a degenerate input (an empty file) makes this entry point skip the
+    whole callback protocol that its siblings run for the same bytes."""
+    prog = ctx.prog
+    n = 0
+    deleg_names = set(PUBLIC) | set([FUNNEL]) | set(WRAPPERS) | set(['yr_filemap_map_fd'])
+    for api in WRAPPERS:
+        f = prog.fn(api)
+        if f is None:
+            continue
+        fam = cu.family(prog, f)
+        names = deleg_names | set(h.name for h in fam[1:])
+        acq = PAIRS.get(api, (None, None))[0]
+        delegs = [c for c in f.calls() if c.get('callee') in names and c.get('callee') not in (api, acq)]
+        if not delegs:
+            ctx.ob('R13.5', '%s:delegates' % api, False, '%s:%s' % (f.file, f.line),
+                   '%s no longer calls another entry point' % api)
+            n += 1
+            continue
+        did = set(c['i'] for c in delegs)
+        rvars = set()
+        for x in f.all_nodes():
+            if x['k'] == 'ret' and x.get('c'):
+                e = cu.strip_casts(f, f.kid(x, 0))
+                if e is not None and e['k'] == 'ref':
+                    rvars.add(e['name'])
+        ct = paths.CondTracker(f, extra=sorted(rvars))
+        bad = []
+
+        def step(x, facts):
+            facts = ct.on_step(x, facts)
+            if x['i'] in did:
+                return frozenset(facts) | {'delegated'}
+            if x['k'] == 'ret':
+                if 'delegated' in facts:
+                    return None
+                e = cu.strip_casts(f, f.kid(x, 0)) if x.get('c') else None
+                v = cu.const_of(e) if e is not None else 0
+                if v is not None and v != 0:
+                    return None
+                if v is None and e is not None and e['k'] == 'ref' and any(
+                        isinstance(t, tuple) and len(t) == 3 and t[1] == e['name'] and
+                        ((t[0] == 'ne' and t[2] == 0) or (t[0] == 'eq' and t[2] != 0)) for t in facts):
+                    return None
+                bad.append(x)
+                return None
+            return facts
+
+        def edge(b, term, cond, idx, succ, facts):
+            return ct.on_edge(term, cond, idx, facts)
+        try:
+            paths.explore(f, set(), step, edge, max_states=4096)
+        except paths.Budget:
+            ctx.note('R13.5 %s: budget exceeded' % api)
+            continue
+        n += 1
+        ctx.ob('R13.5', '%s:success-only-through-the-delegate' % api, not bad,
+               f.loc(bad[0]) if bad else f.loc(delegs[0]),
+               'every return that is not a failure passes %s' % '/'.join(sorted(set(c['callee'] for c in delegs)))
+               if not bad else
+               '%s can return success here without having called %s: for such an input this entry point '
+               'delivers none of the callbacks its sibling entry points deliver' % (
+                   api, '/'.join(sorted(set(c['callee'] for c in delegs)))))
+    return n
+
+
 def run(ctx):
     r13_1(ctx)
     ctx.floor('R13.1', 14)
@@ -503,3 +572,5 @@ def run(ctx):
     ctx.floor('R13.3', 8)
     r13_4(ctx)
     ctx.floor('R13.4', 10)
+    r13_5(ctx)
+    ctx.floor('R13.5', 8)
